@@ -220,6 +220,14 @@ def run_case(case: Dict[str, Any], ctx) -> None:
                 g["lr"] = own_lr
             for i in idx:
                 group_lr[i] = g.get("lr", global_lr)
+            # the forms torch.optim accepts for a group's "params": a list, any other iterable (tuple), or ONE tensor
+            pf = frng.random()
+            if pf < 0.15:
+                g["params"] = tuple(g["params"])
+                ctx.count("form:group-params-as-tuple")
+            elif pf < 0.30 and len(idx) == 1:
+                g["params"] = g["params"][0]
+                ctx.count("form:group-params-as-a-single-tensor")
             arg.append(g)
     family = case["family"]
     allow = special == "untagged-allowed"
